@@ -257,11 +257,21 @@ def run_case(acc, c: dict, monitors: List[Callable], nontrivial: Optional[Callab
     def fresh():
         state["d"], state["ns"] = build_gprog(bprog, noloc=c.get("noloc", False))
         if conf:
-            if conf.get("after_warm"):
-                r0 = H.run_controlled(make_op(state["d"], bprog, None), is_async=prog.is_async)
+            if conf.get("during_warm"):
+                # the reconfiguration happens from inside a node function of a call that is in flight (it returns before that call
+                # ends); the call explored afterwards must obey the new attributes
+                d_w = state["d"]
+                H.IN_FLIGHT[bprog.ids()[0]] = lambda: conf_apply(d_w, prog, bprog, conf)
+                r0 = H.run_controlled(make_op(d_w, bprog, None), is_async=prog.is_async)
+                H.IN_FLIGHT.clear()
                 if r0.outcome != "return":
-                    raise H.HarnessError(f"warm-up call before config did not return: {r0.outcome} {r0.exc!r}")
-            conf_apply(state["d"], prog, bprog, conf)
+                    raise H.HarnessError(f"warm-up call with a reconfiguration in flight did not return: {r0.outcome} {r0.exc!r}")
+            else:
+                if conf.get("after_warm"):
+                    r0 = H.run_controlled(make_op(state["d"], bprog, None), is_async=prog.is_async)
+                    if r0.outcome != "return":
+                        raise H.HarnessError(f"warm-up call before config did not return: {r0.outcome} {r0.exc!r}")
+                conf_apply(state["d"], prog, bprog, conf)
         if reconf:
             if reconf.get("via") == "attr":
                 state["d"].max_concurrency = reconf["mc"]
@@ -415,9 +425,14 @@ def replay_case(c: dict, monitors: List[Callable], prefix, prog: Optional[GProg]
         elif c.get("conf"):
             bprog = conf_build_prog(prog, c["conf"])
             d, ns = build_gprog(bprog, noloc=c.get("noloc", False))
-            if c["conf"].get("after_warm"):
+            if c["conf"].get("during_warm"):
+                H.IN_FLIGHT[bprog.ids()[0]] = lambda: conf_apply(d, prog, bprog, c["conf"])
                 H.run_controlled(make_op(d, bprog, None), is_async=prog.is_async)
-            conf_apply(d, prog, bprog, c["conf"])
+                H.IN_FLIGHT.clear()
+            else:
+                if c["conf"].get("after_warm"):
+                    H.run_controlled(make_op(d, bprog, None), is_async=prog.is_async)
+                conf_apply(d, prog, bprog, c["conf"])
         else:
             d, ns = build_gprog(prog, noloc=c.get("noloc", False))
         src = prog.source()
